@@ -636,7 +636,7 @@ for _p, _t in ROUND2B.items():
 
 # round 2, third pass: the explicit iteration bound of the nogood search
 ROUND2C = {
- "C05": " EXPLICIT BOUND: ng_search_halts_within_explicit_bound - 2^(n+3) iterations suffice for the concrete loop on n statements, every heuristic and both modes (counted big-step argument carried to the concrete run by the lock-step simulation); ng_search_exact_within_explicit_bound (exactness for ALL fuels from the bound on); 2^(n+3) <= 10^6 iff n <= 16.",
+ "C05": " EXPLICIT BOUND: ng_search_halts_within_explicit_bound - 2^(n+3) iterations suffice for the concrete loop on n statements, every heuristic and both modes (counted big-step argument carried to the concrete run by the lock-step simulation); ng_search_exact_within_explicit_bound (exactness for ALL fuels from the bound on); 2^(n+3) <= 10^6 iff n <= 16. The compiled driver evaluates counts, paths, dependency sets and the heuristics through memoised twins proved equal to the pure model functions on every table (countF_eq_countFM, pathsF_eq_pathsFM, passive_eq_passiveM, heuCall_eq_heuCallM; @[csimp]), so the parity frameworks (path counts near 2^60) are now run through the verified search itself.",
  "C15": " Fuel discharged for frameworks of at most 16 statements: halted_text_for_small_frameworks, cli_text_faithful_small_frameworks (fuel 1 000 000 - the driver's bound - with NO halting hypothesis, all three arms incl. --twoval / --stmng); beyond 16 statements the hypothesis remains and is established by evaluation only.",
  "C16": " Fuel discharged for frameworks of at most 16 statements: strategy_halts_for_small_frameworks, served_answer_for_code_small_frameworks (and the any-parsing / checked-hybrid variants) - no bound hypothesis left there.",
 }
